@@ -322,20 +322,33 @@ def replay_pipe(st, col, corrupt=None):
                     elif op == 'outer_conj':
                         qc_before = int(cur.qconj)
                         cur = cur.outer_conj()
+                    elif op == 'flip_charges_qconj':
+                        cur = cur.flip_charges_qconj()
+                    elif op == 'copy':
+                        cur = cur.copy()
+                    elif op in CONV_OPS:
+                        if not final:
+                            raise core.MachineryError('conversion of a pipe in the middle of a behaviour')
+                        _pipe_conversion(st, cur, l, a, fail)
+                        col.case(key, 'Pipe.' + op + ('(nested)' if nested else ''))
+                        col.behaviours += 1
+                        return
                     elif op == 'nest':
                         legs = [cur]
                         cur = None
                     else:
                         raise core.MachineryError('unknown Pipe op %r' % op)
-            except core.MachineryError:
+            except (core.MachineryError, Stop):
                 raise
             except Exception as e:
                 if not final:
                     col.note('pipe_prefix_diverged')
                     raise Stop()
                 fail('exception', got='%s: %s' % (type(e).__name__, e), exc=type(e).__name__)
-            if op in ('fuse', 'conj', 'outer_conj'):
+            if op in ('fuse', 'conj', 'outer_conj', 'flip_charges_qconj', 'copy'):
                 clause, p = _cheap_pipe(cur, a)
+                if not clause and [int(x.qconj) for x in cur.legs] != list(h['inq']):
+                    clause, p = 'incoming-legs', [int(x.qconj) for x in cur.legs]
                 if clause:
                     if not final:
                         col.note('pipe_prefix_diverged')
@@ -351,6 +364,54 @@ def replay_pipe(st, col, corrupt=None):
         pass
 
 
+CONV_OPS = ('to_LegCharge', 'pipe_sort', 'pipe_bunch', 'pipe_project')
+
+
+def _pipe_conversion(st, cur, l, a, fail):
+    """to_LegCharge / sort / bunch / project of a pipe: a plain LegCharge comes back, the pipe is untouched"""
+    import numpy as np
+    from harness import legs as HL
+    from tenpy.linalg.charges import LegPipe, LegCharge
+    op = l['op']
+    before = HL.proj_leg(cur)
+    legs_before = [HL.proj_leg(x) for x in cur.legs]
+    res = None
+    if op == 'to_LegCharge':
+        R = cur.to_LegCharge()
+    elif op == 'pipe_sort':
+        perm, R = cur.sort(bunch=l['bunch'])
+        res = ('perm', [int(x) for x in perm], list(l['perm']))
+    elif op == 'pipe_bunch':
+        idx, R = cur.bunch()
+        res = ('idx', [int(x) for x in idx], list(l['idx']))
+    else:
+        mq, bm, R = cur.project(np.array(l['mask'], dtype=bool))
+        res = ('map_qind/block_masks', ([int(x) for x in mq], [[bool(y) for y in m] for m in bm]),
+               (list(l['map_qind']), [list(m) for m in l['block_masks']]))
+    if type(R) is not LegCharge:
+        fail('result-type', got=type(R).__name__, exp='LegCharge')
+    clause, p = _cheap_leg(R, a)
+    if clause:
+        fail(clause, got=p, exp=tlaval.to_jsonable(a))
+    if res is not None and res[1] != res[2]:
+        fail(res[0], got=res[1], exp=res[2])
+    o = st['obs']
+    if not HL.same_data(p, st['leg']) or int(R.ind_len) != o['ind_len'] or [int(x) for x in R.slices] != list(o['slices']):
+        fail('leg-data', got=p, exp=tlaval.to_jsonable(st['leg']))
+    qf = [[int(c) for c in row] for row in R.to_qflat()]
+    if qf != [list(c) for c in o['qflat']]:
+        fail('to_qflat', got=qf, exp=tlaval.to_jsonable(o['qflat']))
+    got = [bool(R.is_sorted()), bool(R.is_bunched()), bool(R.is_blocked())]
+    if got != [o['is_sorted'], o['is_bunched'], o['is_blocked']]:
+        fail('is_sorted/is_bunched/is_blocked', got=got, exp=[o['is_sorted'], o['is_bunched'], o['is_blocked']])
+    try:
+        R.test_sanity()
+    except Exception as e:
+        fail('test_sanity', got='%s: %s' % (type(e).__name__, e))
+    if not isinstance(cur, LegPipe) or HL.proj_leg(cur) != before or [HL.proj_leg(x) for x in cur.legs] != legs_before:
+        fail('pipe-changed', got=HL.proj_leg(cur), exp=before)
+
+
 def _full_pipe(st, P, cur, ci, fuse, lastl, fail, col):
     import numpy as np
     import warnings
@@ -361,6 +422,8 @@ def _full_pipe(st, P, cur, ci, fuse, lastl, fail, col):
     I, F = st['inner'], st['full']
     nested = bool(I['legs'])
     n = len(P['legs'])
+    if not isinstance(cur, LegPipe):
+        fail('not-a-LegPipe', got=type(cur).__name__)
     # a. incoming legs
     if cur.nlegs != n or len(cur.legs) != n:
         fail('nlegs', got=cur.nlegs, exp=n)
@@ -622,7 +685,7 @@ def _work(args):
         body = txt[m.end():e]
         pm = re.search(r'/\\ phase = "(\w+)"', body)
         phase = pm.group(1) if pm else None
-        if kind == 'pipe' and phase != 'pipe':
+        if kind == 'pipe' and phase not in ('pipe', 'done'):
             continue
         if kind == 'leg' and phase not in ('new', 'leg', 'done'):
             continue
@@ -699,7 +762,8 @@ CH_INV = ['ChargeInfoLaws', 'ChargePreserved', 'FlagsTruthful', 'LegValid', 'Con
 CH_PROP = ['ShortCutSound']
 P_INV = ['PipeBijection', 'FusionRule', 'OutValid', 'SortedOut', 'BunchedOut', 'BlockedOut', 'OutFlagsTruthful',
          'QMapOrdered', 'MapIsKeyRank', 'ConjKeepsContractible', 'OuterConjKeepsEffectiveCharge', 'SplitAfterCombine',
-         'NestedOK']
+         'NestedOK', 'ConvPost', 'ChargePreserved', 'FlagsTruthful', 'LegValid']
+P_PROP = ['PostKeeps', 'ConvKeepsPipe']
 
 CH_DEFAULT = dict(U1Win='<-WinSym', Seed=0, ModsSet='<-ModsQ0', CBlk=1, CSizes={1}, CRate=1, XBlk=1, XSizes={1}, XRate=1,
                   XInts={1}, MaskRate=1, QRate=1, MaxOps=0)
@@ -712,11 +776,12 @@ def charges_cfg(seed, **kw):
     return dict(init='CInit', next='CNext', constants=c, invariants=CH_INV, properties=CH_PROP, view='CView')
 
 
-def pipe_cfg(seed, profiles, maxpost=1, postrate=1, maxnest=0, nestrate=1, declmax=36, win='WinSym', nestmax=12, nestn=2, nestlegrate=20):
+def pipe_cfg(seed, profiles, maxpost=1, postrate=1, maxnest=0, nestrate=1, declmax=36, win='WinSym', nestmax=12, nestn=2, nestlegrate=20,
+             convrate=1):
     c = dict(CH_DEFAULT)
     c.update(Seed=seed, U1Win='<-' + win, Profiles='<-' + profiles, MaxPost=maxpost, PostRate=postrate, MaxNest=maxnest,
-             NestRate=nestrate, DeclMax=declmax, NestMax=nestmax, NestN=nestn, NestLegRate=nestlegrate)
-    return dict(init='PInit', next='PNext', constants=c, invariants=P_INV, view='PView')
+             NestRate=nestrate, DeclMax=declmax, NestMax=nestmax, NestN=nestn, NestLegRate=nestlegrate, ConvRate=convrate)
+    return dict(init='PInit', next='PNext', constants=c, invariants=P_INV, properties=P_PROP, view='PView')
 
 
 def mc_stage(ctx, pools, name, spec, cfg, kind, sample_mod=1, timeout=1800):
@@ -744,7 +809,7 @@ def sim_stage(ctx, name, cfg, num, depth, seed):
         col = Col()
         for tr in traces:
             for act, st in tr:
-                if st.get('phase') == 'pipe':
+                if st.get('phase') in ('pipe', 'done'):
                     replay_pipe(st, col)
         merge(ctx, col)
         ctx.notes.setdefault('stages', []).append(dict(name=name, traces=len(traces), wall_s=round(time.time() - t0, 1),
@@ -854,15 +919,15 @@ def check(ctx):
                 mc_stage(ctx, pools, name, 'Charges', charges_cfg(seed, **kw), 'leg')
         if not only or 'pipe' in only:
             if quick:
-                mc_stage(ctx, pools, 'Pipe/quick', 'Pipe', pipe_cfg(seed, 'QuickProfiles', maxpost=1, postrate=12, maxnest=1, nestrate=200), 'pipe')
+                mc_stage(ctx, pools, 'Pipe/quick', 'Pipe', pipe_cfg(seed, 'QuickProfiles', maxpost=1, postrate=10, maxnest=1, nestrate=250, convrate=20, nestlegrate=30), 'pipe')
             else:
                 mc_stage(ctx, pools, 'Pipe/thorough', 'Pipe',
-                         pipe_cfg(seed, 'ThoroughProfiles', maxpost=2, postrate=8, maxnest=1, nestrate=300), 'pipe', timeout=3600)
+                         pipe_cfg(seed, 'ThoroughProfiles', maxpost=2, postrate=12, maxnest=1, nestrate=300, convrate=25), 'pipe', timeout=3600)
                 mc_stage(ctx, pools, 'Pipe/window 0..2', 'Pipe',
-                         pipe_cfg(seed + 1, 'QuickProfiles', maxpost=1, postrate=12, maxnest=1, nestrate=200, win='WinPos'), 'pipe')
+                         pipe_cfg(seed + 1, 'QuickProfiles', maxpost=1, postrate=10, maxnest=1, nestrate=200, convrate=20, win='WinPos'), 'pipe')
         if not only or 'sim' in only:
-            sim_stage(ctx, 'Pipe/simulate 4 legs + nested', pipe_cfg(seed, 'SimProfiles', maxpost=2, maxnest=1, declmax=0, nestmax=36, nestn=3, nestlegrate=1),
-                      num=15 if quick else 150, depth=16, seed=seed + 3)
+            sim_stage(ctx, 'Pipe/simulate 4 legs + nested', pipe_cfg(seed, 'SimProfiles', maxpost=2, maxnest=1, declmax=0, nestmax=36, nestn=3, nestlegrate=1, convrate=2),
+                      num=8 if quick else 150, depth=16, seed=seed + 3)
     finally:
         pools.close()
     ctx.exhaustive = False
